@@ -25,7 +25,9 @@ def build_script(rng, bursts, tail=None, start=1000, poll_every=1):
     now = start
     ends = []
     for b in bursts:
-        sync = b.sync if b.sync is not None else rng.range(32, 72)
+        # the squelch synchronises somewhere inside the 16-byte preamble (32 symbols at the earliest) or on the byte after it;
+        # idle polling stops there.  Both ends of the range matter for what is due before the burst is handed over
+        sync = b.sync if b.sync is not None else rng.choice([rng.range(32, 72), rng.range(32, 136), 32, 128, 136])
         sync_at = now + b.gap + sync
         t = now + poll_every
         while t <= sync_at:
